@@ -232,6 +232,7 @@ def check(res):
             return
         shutil.rmtree(os.path.join(base, "edit_" + first_tag), ignore_errors=True)
     evals += hostile_surroundings(res, gv, base)
+    evals += unmarked_neighbours(res, gv, base)
     # --- declaration and file order inside a package must not matter for a struct's own file
     for r in range(3 if quick else 12):
         sc = dict(pkgs[r % len(pkgs)])
@@ -273,6 +274,48 @@ def check(res):
         "race_runs": 2 if quick else 10, "races": races,
         "samples": [{"packages": [s["id"] for s in pkgs], "gomaxprocs": [1, 2, 16], "repetitions": reps}],
     })
+
+
+def unmarked_neighbours(res, gv, base):
+    """the file of a marked struct next to declarations WITHOUT markers (nothing is generated for those): structs whose names
+    differ from it only in case, function-local types of the same name, aliases, containers - declared before and after it"""
+    d = os.path.join(base, "neigh")
+    marked = "type Response struct {\n\t//govalid:required\n\tCode string\n\t//govalid:gt=0\n\tN int\n}\n"
+    variants = {
+        "after": marked + "\n// not validated\ntype response struct{ raw []byte }\n\nvar _ = response{}\n",
+        "before": "// not validated\ntype response struct{ raw []byte }\n\nvar _ = response{}\n\n" + marked,
+        "local": marked + "\nfunc f() int {\n\ttype response struct{ x int }\n\ttype Response struct{ y int }\n\treturn response{}.x + Response{}.y\n}\n",
+        "upper": marked + "\ntype RESPONSE struct{}\n\ntype Responses struct{ Items []Response }\n\ntype responseAlias = Response\n\ntype Responder interface{ Respond() Response }\n",
+        "both": "type response struct{}\n\n" + marked + "\ntype rESPONSE struct{}\n\nvar _, _ = response{}, rESPONSE{}\n",
+    }
+    mod = "module nb\n\ngo 1.24.3\n\nrequire github.com/sivchari/govalid v0.0.0\n\nreplace github.com/sivchari/govalid => %s\n" % REPO
+
+    def build(body):
+        shutil.rmtree(d, ignore_errors=True)
+        os.makedirs(os.path.join(d, "api"))
+        open(os.path.join(d, "go.mod"), "w").write(mod)
+        shutil.copy(os.path.join(REPO, "go.sum"), os.path.join(d, "go.sum"))
+        open(os.path.join(d, "api", "api.go"), "w").write("package api\n\n" + body)
+        rc, log = gen(gv, d, ["./..."])
+        rc2, log2 = gen(gv, d, ["./..."])       # and once more over the generated tree
+        return rc or rc2, log + log2, outputs(d)
+    rc, log, want = build(marked)
+    if rc != 0 or len(want) != 1:
+        res.violation({"kind": "generation-failed", "what": "govalid failed on the single marked struct of the unmarked-neighbours step", "log": log[-1500:]})
+        return 0
+    n = 0
+    for tag, body in variants.items():
+        rc, log, got = build(body)
+        n += 1
+        if got != want:
+            diff = sorted(k for k in set(got) | set(want) if got.get(k) != want.get(k))
+            res.violation({"kind": "spec-violation", "variant": tag, "files": diff, "generator_exit": rc, "source": "package api\n\n" + body,
+                           "got": {k: (got.get(k) or b"<missing>").decode("utf8", "replace")[:1500] for k in diff[:2]},
+                           "what": "declarations without markers in the same file (nothing is generated for them) changed, removed or added a generated file: "
+                                   "the file of a struct is not a function of that struct's declaration alone"})
+            break
+    shutil.rmtree(d, ignore_errors=True)
+    return n
 
 
 def hostile_surroundings(res, gv, base):
